@@ -403,6 +403,9 @@ func drive(args []string) error {
 	var sample row
 	emit := func(r row) error {
 		counts[r["ev"].(string)]++
+		if src, ok := r["src"].(string); ok {
+			counts["src_"+src]++
+		}
 		if _, bad := r["panic"]; bad {
 			counts["panics"]++
 		}
